@@ -125,7 +125,10 @@ class FcEvaluator(Evaluator, ABC):
             result = evaluation_method(text_to_be_evaluated)
         try:
             if result.format_constraint_fulfilled is False and result.error_message is None:
-                result.error_message = f"Condition [{condition_key}] has to be fulfilled."
+                # a new instance: the object returned by the evaluation method belongs to the evaluator (it may be long-lived)
+                result = EvaluatedFormatConstraint(
+                    format_constraint_fulfilled=False, error_message=f"Condition [{condition_key}] has to be fulfilled."
+                )
         except AttributeError as attribute_error:
             if isinstance(result, FormatConstraintEvaluationResult):
                 # explicitly raise error with meaningful message, because this is really hard to distinguish for users
